@@ -58,6 +58,26 @@ fn bogus_out_point(rng: &mut Rng) -> OutPoint {
     OutPoint::new(h.pack(), rng.below(3) as u32)
 }
 
+/// Does the client know the headers the median time at its tip is computed from (the tip and
+/// its 36 ancestors, or all of them down to genesis)?
+fn median_time_computable(c: &crate::client::Client) -> bool {
+    let mut h = c.storage.get_last_state().1.calc_header_hash();
+    for _ in 0..37 {
+        let known = ckb_traits::HeaderProvider::get_header(&c.storage, &h)
+            .or_else(|| c.peers.find_header_in_proved_state(&h));
+        match known {
+            Some(hd) => {
+                if hd.number() == 0 {
+                    break;
+                }
+                h = hd.parent_hash();
+            }
+            None => return false,
+        }
+    }
+    true
+}
+
 fn build(sim: &Sim, st: &C18State, spec: &TxSpec) -> Option<Built> {
     let c = sim.client.as_ref()?;
     let mut rng = Rng::new(spec.seed);
@@ -83,8 +103,20 @@ fn build(sim: &Sim, st: &C18State, spec: &TxSpec) -> Option<Built> {
         let (_, tx, _) = &st.pool[pick];
         // still verifiable only if its inputs are still known (a pending parent may have been evicted)
         let known = inputs_known(tx);
-        let why = if known { "resubmission of a pool member" } else { "resubmission of a pool member whose pending parent was evicted" };
-        return Some(Built { tx: tx.clone(), valid: known, why: why.into(), groups: 0, makes_group: None });
+        // a timestamp-based since is judged against the headers the client has *now*
+        let by_time = tx.inputs().into_iter().any(|i| {
+            let s: u64 = i.since().unpack();
+            s >> 61 == 0b010 || s >> 61 == 0b110
+        });
+        let judged = !by_time || median_time_computable(c);
+        let why = if !known {
+            "resubmission of a pool member whose pending parent was evicted"
+        } else if !judged {
+            "resubmission of a pool member with a timestamp since, the headers for the median time are not known any more"
+        } else {
+            "resubmission of a pool member"
+        };
+        return Some(Built { tx: tx.clone(), valid: known && judged, why: why.into(), groups: 0, makes_group: None });
     }
     let world = &sim.world;
     let dep_known = c.storage.get_transaction_with_header(&world.always_success_dep.out_point().tx_hash()).is_some();
@@ -181,6 +213,8 @@ fn build(sim: &Sim, st: &C18State, spec: &TxSpec) -> Option<Built> {
     let mutation = match (spec.mutation, crate::entropy::mix(&[spec.seed, 0xd9]) % 10) {
         (0, 0) => 15,
         (0, 1) | (0, 2) => 16,
+        (13, 3) | (13, 4) => 17,
+        (13, 5) => 18,
         (m, _) => m,
     };
     let mut makes_group: Option<bool> = None;
@@ -289,6 +323,28 @@ fn build(sim: &Sim, st: &C18State, spec: &TxSpec) -> Option<Built> {
             valid = false;
             why = "input index beyond the outputs of a known transaction".into();
         }
+        17 => {
+            // absolute since by timestamp, long past: it can be judged (and is satisfied) only if
+            // the client has the headers the median time is computed from - the tip and its 36
+            // ancestors; otherwise the transaction has to be refused, not to abort the call
+            let since = 0x4000_0000_0000_0000u64 | (1 + rng.below(1_000));
+            cell_inputs[0] = CellInput::new(inputs[0].0.clone(), since);
+            let computable = median_time_computable(c);
+            if computable {
+                if valid {
+                    why = "valid (absolute timestamp since in the past, median time computable)".into();
+                }
+            } else {
+                valid = false;
+                why = "timestamp since, but the headers for the median time are not known".into();
+            }
+        }
+        18 => {
+            // satisfied absolute since by epoch (epoch 0): still valid
+            let since = 0x2000_0000_0000_0000u64 | (1u64 << 40);
+            cell_inputs[0] = CellInput::new(inputs[0].0.clone(), since);
+            why = "valid (absolute epoch since in the past)".into();
+        }
         13 => {
             // satisfied absolute since (block number <= tip): still valid
             let since = rng.range(0, tip);
@@ -363,6 +419,11 @@ fn submit_inner(sim: &mut Sim, st: &mut C18State, spec: &TxSpec, send: bool) {
     sim.log(format!("{} {:#x} ({}) -> {:?}", method, hash, built.why, r));
     if built.why.contains("dep group") {
         sim.stat("probe.c18.dep_group_used");
+    }
+    if built.why.contains("median time computable") {
+        sim.stat("probe.c18.timestamp_since_judged");
+    } else if built.why.contains("median time are not known") {
+        sim.stat("probe.c18.timestamp_since_without_the_headers");
     }
     match (&r, built.valid) {
         (Ok(_), false) => {
